@@ -116,8 +116,11 @@ ExprCases(tier) ==
 
 TypingCases(tier) ==
   LET L == SetToSeq(C12_Lists(tier))
+      W == SetToSeq(C12_Writers)  R == SetToSeq(C12_Readers)
   IN [i \in 1..(2 * Len(L)) |->
         IF i <= Len(L) THEN C12_Case(i, L[i], "trans") ELSE C12_Case(i, L[i - Len(L)], "pred")]
+     \o [i \in 1..(2 * Len(W) * Len(R)) |->
+          LET j == (i - 1) \div 2 IN C12_Case2(2 * Len(L) + i, W[(j % Len(W)) + 1], R[(j \div Len(W)) + 1], ((i - 1) % 2) + 1)]
 
 (* C13: for every (body, use) the three spellings, as single commands and  *)
 (* as programs of 2-3 commands that share the definitions                   *)
